@@ -21,8 +21,9 @@ ASSUMPTIONS = [
     "numpy/LAPACK eigvalsh and svd are the trusted reference",
     "Hilbert reference: analytic signal via numpy FFT, exponential padding as documented, mean removed afterwards",
     "ExtendedEOF reference: centred rank-k PCA reconstruction, delayed copies tau apart, re-centred",
-    "randomised solvers are compared exactly only where the random range finder spans the full row/column space "
-    "(k + 10 oversamples >= min(n,p)) or the spectrum has a gap after mode k (then rtol 1e-6)",
+    "non-exact solvers: exact comparison where the random range finder spans the full row/column space (real data, k + 10 oversamples >= min(n,p)); "
+    "rtol 1e-6 where the method is accurate by its own error bound ((s_{k+11}/s_k)^9 <= 1e-8 for the real randomised solver, s_{k+1}/s_k <= 0.05 for "
+    "the complex svds/lobpcg path); otherwise only one-sided bounds (sum of the top-k variances <= exact)",
     "scipy svds refuses k = min(shape) for complex data with solver='randomized' (counted as refusal)",
 ]
 TIERS = {"quick": (4, 250), "thorough": (16, 1300)}
@@ -188,10 +189,19 @@ def run_case(desc, ctx):
     exact_solver = desc["solver"] == "full" or (desc["solver"] == "auto" and n < 500 and k > int(0.8 * rank))
     iscomplex = np.iscomplexobj(Mref)
     full_range = (not iscomplex) and (k + 10 >= rank)  # randomized range finder spans everything
-    gap = (s_ref[k - 1] - (s_ref[k] if k < rank else 0.0)) / s1
+    # Accuracy of the non-exact solvers.  Real data: randomised range finder with 10 oversamples and >= 4 power iterations,
+    # error ~ (s_{k+11}/s_k)^9 (Halko et al.); complex data: scipy svds/lobpcg without oversampling and a default
+    # iteration cap, trusted only behind a wide gap after mode k.  Outside these regimes only one-sided bounds are asserted.
+    sk = s_ref[k - 1]
+    if iscomplex:
+        decay = (s_ref[k] / sk) if (k < rank and sk > 0) else 0.0
+        accurate = decay <= 0.05
+    else:
+        decay = (s_ref[k + 10] / sk) if (k + 10 < rank and sk > 0) else 0.0
+        accurate = decay**9 <= 1e-8
     if exact_solver or full_range:
         rtol = 1e-9
-    elif gap > 0.05:
+    elif accurate and sk > 1e-3 * s1:
         rtol = 1e-6
     else:
         rtol = None  # only one-sided bounds
